@@ -454,7 +454,7 @@ pub fn gen_case(rng: &mut Rng, opt: &str, thorough: bool) -> String {
         return gen_scale(rng, thorough, opt.strip_prefix("scale").unwrap().trim_start_matches(':'));
     }
     let family = if opt.is_empty() || opt == "mix" {
-        *rng.pick(&["rt", "layout", "layout", "kinds", "mutate", "mutate", "arbitrary", "kw", "kw", "corrupt", "fault", "ls", "rtbad", "valid"])
+        *rng.pick(&["rt", "layout", "layout", "kinds", "mutate", "mutate", "arbitrary", "kw", "kw", "corrupt", "fault", "ls", "rtbad", "valid", "declared"])
     } else {
         let fams: Vec<&str> = opt.split('+').collect();
         *rng.pick(&fams)
@@ -515,6 +515,35 @@ pub fn gen_case(rng: &mut Rng, opt: &str, thorough: bool) -> String {
         }
         "arbitrary" => {
             case.data = arbitrary(rng);
+        }
+        "declared" => {
+            // a short document in which a numeral that *declares* how much follows (the condition count of
+            // a `justice` line, a sort width, an index) is far larger than what the text then contains:
+            // 2^k-1 / 2^k / 2^k+1 for k = 8..44 and the source's own integer constants.  Memory must
+            // follow the bytes consumed, not the declaration (C05).
+            let k = rng.range(8, 45);
+            let n: u128 = match rng.below(4) {
+                0 => (1u128 << k) - 1,
+                1 => 1u128 << k,
+                2 => (1u128 << k) + 1,
+                _ => { let c = source_consts(); if c.is_empty() { 1 << 24 } else { *rng.pick(&c) as u128 * rng.range(1, 1 << 12) as u128 } }
+            };
+            let mut b = Vec::new();
+            b.extend_from_slice(b"1 sort bitvec 1\n2 input 1\n");
+            let shape = rng.below(5);
+            let present = rng.below(4);
+            match shape {
+                0 | 1 => {
+                    b.extend_from_slice(format!("3 justice {}", n).as_bytes());
+                    for _ in 0..present { b.extend_from_slice(b" 2"); }
+                }
+                2 => b.extend_from_slice(format!("3 sort bitvec {}", n).as_bytes()),
+                3 => b.extend_from_slice(format!("3 sort array {} {}", n, n).as_bytes()),
+                _ => b.extend_from_slice(format!("3 slice 1 2 {} {}", n, n).as_bytes()),
+            }
+            if rng.chance(3, 4) { b.push(b'\n'); }
+            if rng.chance(1, 3) { b.extend_from_slice(b"4 bad 2\n"); }
+            case.data = b;
         }
         "kw" => {
             case.data = keyword_doc(rng);
